@@ -1,4 +1,257 @@
-import KsiVerif.Spec.Uri
-/-! # C20 — property theorems (under construction) -/
+import KsiVerif.Proofs.Uri
+/-!
+# C20 — service URIs: exact scheme dispatch; embedded credentials never reach the wire
+
+Property theorems only.  Model: `KsiVerif.Uri` (http_parser.c URL automaton transcribed, net.c
+`uriSplit` / `uriCompose` / `getClientByUriScheme`, net_uri.c `uriClient_setService`, net_async.c
+`asyncService_setupAsyncClient`); the URL-character table and the scheme map are generated from the
+current source.  Grammar and expected hand-over: `KsiVerif.Uri.render`, `wf`, `specBlocking`,
+`specAsync` (Spec/Uri.lean).
+-/
 namespace KsiVerif.Props.C20
+open KsiVerif KsiVerif.Uri
+
+/-- **Scheme recognition is exact and case-insensitive**, for every byte string: the generated
+scheme map selects the transport and the replacement scheme the property names, and nothing else -/
+theorem scheme_dispatch (s : Bytes) :
+    clientByScheme (some s) =
+      (match route s with
+        | .http ns => (.http, some ns)
+        | .tcp => (.tcp, none)
+        | .file => (.file, none)
+        | .other => (.unknown, none)) := by
+  unfold clientByScheme route
+  simp only [Gen.schemeMap, List.find?]
+  have e1 : ([107, 115, 105] : List UInt8).map toLower = [107, 115, 105] := by decide
+  have e2 : ([107, 115, 105, 43, 104, 116, 116, 112] : List UInt8).map toLower = [107, 115, 105, 43, 104, 116, 116, 112] := by decide
+  have e3 : ([107, 115, 105, 43, 104, 116, 116, 112, 115] : List UInt8).map toLower = [107, 115, 105, 43, 104, 116, 116, 112, 115] := by decide
+  have e4 : ([107, 115, 105, 43, 116, 99, 112] : List UInt8).map toLower = [107, 115, 105, 43, 116, 99, 112] := by decide
+  have e5 : ([102, 105, 108, 101] : List UInt8).map toLower = [102, 105, 108, 101] := by decide
+  rw [e1, e2, e3, e4, e5]
+  generalize s.map toLower = L
+  by_cases h1 : L = [107, 115, 105]
+  · subst h1; rfl
+  · by_cases h2 : L = [107, 115, 105, 43, 104, 116, 116, 112]
+    · subst h2; rfl
+    · by_cases h3 : L = [107, 115, 105, 43, 104, 116, 116, 112, 115]
+      · subst h3; rfl
+      · by_cases h4 : L = [107, 115, 105, 43, 116, 99, 112]
+        · subst h4; rfl
+        · by_cases h5 : L = [102, 105, 108, 101]
+          · subst h5; rfl
+          · have b1 : ([107, 115, 105] == L) = false := by simpa using fun h => h1 h.symm
+            have b2 : ([107, 115, 105, 43, 104, 116, 116, 112] == L) = false := by simpa using fun h => h2 h.symm
+            have b3 : ([107, 115, 105, 43, 104, 116, 116, 112, 115] == L) = false := by simpa using fun h => h3 h.symm
+            have b4 : ([107, 115, 105, 43, 116, 99, 112] == L) = false := by simpa using fun h => h4 h.symm
+            have b5 : ([102, 105, 108, 101] == L) = false := by simpa using fun h => h5 h.symm
+            have c1 : (L == [107, 115, 105]) = false := by simpa using h1
+            have c2 : (L == [107, 115, 105, 43, 104, 116, 116, 112]) = false := by simpa using h2
+            have c3 : (L == [107, 115, 105, 43, 104, 116, 116, 112, 115]) = false := by simpa using h3
+            have c4 : (L == [107, 115, 105, 43, 116, 99, 112]) = false := by simpa using h4
+            have c5 : (L == [102, 105, 108, 101]) = false := by simpa using h5
+            simp only [b1, b2, b3, b4, b5, c1, c2, c3, c4, c5, Bool.false_eq_true, if_false]
+
+/-- non-vacuity: `KSI+https` goes to the HTTP transport as `https`, `file` to the file transport -/
+example : route [75, 83, 73, 43, 104, 116, 116, 112, 115] = .http [104, 116, 116, 112, 115] := by decide
+example : route [70, 105, 108, 101] = .file := by decide
+
+/-- **`uriSplit` recovers exactly the parts a well-formed URI was written from** -/
+theorem split_render (p : UParts) (h : wf p = true)
+    (hshape : ¬ (p.path = [] ∧ p.query = none ∧ p.fragment ≠ none)) (hlen : (render p).length < 65536) :
+    uriSplit (render p) = .ok (partsOf p) :=
+  uriSplit_render p h hshape hlen
+
+end KsiVerif.Props.C20
+
+namespace KsiVerif.Props.C20
+open KsiVerif KsiVerif.Uri
+
+theorem host58 : isHostCharN 58 = false := by decide
+
+/-- `uriCompose` on the split parts writes the URI back without the credentials and with the given scheme -/
+theorem compose_parts (p : UParts) (h : wf p = true) (ns : Bytes) (hlen : (httpUrl ns p).length ≤ 0xfffe) :
+    uriCompose (some ns) (partsOf p).host (partsOf p).port (partsOf p).path (partsOf p).query (partsOf p).fragment = httpUrl ns p := by
+  have hw := wf_parts p h
+  -- host
+  have hhost : hostText (some p.host.text) = p.host.render := by
+    have h3 := hw.2.2.1
+    unfold hostText HostForm.text HostForm.render
+    cases hh : p.host with
+    | name x =>
+      rw [hh] at h3
+      simp only [Bool.and_eq_true, List.all_eq_true] at h3
+      have hn : (58 : UInt8) ∉ x := by
+        intro hm
+        have := h3.2 58 hm
+        simp [isHostChar, host58] at this
+      simp [hn]
+    | v6 x =>
+      rw [hh] at h3
+      simp only [Bool.and_eq_true] at h3
+      have hm : (58 : UInt8) ∈ x := by simpa using h3.2
+      simp [hm]
+  -- port
+  have hport : portText (p.port.getD 0) = (match p.port with | some n => [58] ++ decimal n | none => []) := by
+    have h4 := hw.2.2.2.1
+    unfold portText
+    cases hp : p.port with
+    | none => simp
+    | some n =>
+      rw [hp] at h4
+      simp only [decide_eq_true_eq] at h4
+      simp only [Option.getD_some]
+      rw [if_pos (by omega)]
+  -- path
+  have hpath : pathText (if p.path.isEmpty then none else some p.path) = p.path := by
+    have h5 := hw.2.2.2.2.1
+    unfold pathText
+    cases hp : p.path with
+    | nil => rfl
+    | cons c cs =>
+      rw [hp] at h5
+      simp only [Bool.and_eq_true, decide_eq_true_eq] at h5
+      have hc : c = 47 := u8_eq_of_toNat 47 (by decide) h5.1
+      subst hc
+      simp
+  have hfull : uriComposeFull (some ns) (some p.host.text) (p.port.getD 0) (if p.path.isEmpty then none else some p.path)
+      p.query p.fragment = httpUrl ns p := by
+    unfold uriComposeFull
+    rw [hhost, hport, hpath]
+    unfold httpUrl render optText
+    cases p.port <;> cases p.query <;> cases p.fragment <;> simp
+  unfold uriCompose
+  simp only [partsOf]
+  rw [hfull]
+  exact List.take_of_length_le hlen
+
+theorem tcp_cases (host : Bytes) (port : Option Nat) (u k : Option Bytes) (hp : ∀ n, port = some n → n ≠ 0) :
+    (if port.getD 0 = 0 then Target.refused St.INVALID_ARGUMENT else Target.tcp host (port.getD 0) u k) = specTcp host port u k := by
+  unfold specTcp
+  cases port with
+  | none => simp
+  | some n => simp [hp n rfl]
+
+theorem port_nonzero (p : UParts) (h : wf p = true) : ∀ n, p.port = some n → n ≠ 0 := by
+  intro n hp
+  have h4 := (wf_parts p h).2.2.2.1
+  rw [hp] at h4
+  simp only [decide_eq_true_eq] at h4
+  omega
+
+/-- **What the blocking service hands to the transport** for a well-formed URI is what the
+grammar-level specification says: the HTTP transport gets the URI with the scheme rewritten and the
+credentials removed, host, port, path, query and fragment exactly as written; the TCP transport gets
+host and port; the file transport gets the path; any other scheme goes to the HTTP transport
+unchanged.  Embedded credentials become login id and key unless explicit ones are given. -/
+theorem blocking_service_spec (p : UParts) (loginId key : Option Bytes) (h : wf p = true)
+    (hshape : ¬ (p.path = [] ∧ p.query = none ∧ p.fragment ≠ none)) (hlen : (render p).length ≤ 65000) :
+    setService (render p) loginId key = specBlocking p loginId key := by
+  unfold setService specBlocking
+  rw [uriSplit_render p h hshape (by omega)]
+  simp only
+  have hs : (partsOf p).scheme = some p.scheme := rfl
+  rw [hs, scheme_dispatch p.scheme]
+  cases hr : route p.scheme with
+  | http ns =>
+    simp only [orElse]
+    have hns : ns.length ≤ 5 := by
+      unfold route at hr
+      simp only at hr
+      split at hr
+      · cases hr; decide
+      · split at hr
+        · cases hr; decide
+        · split at hr
+          · cases hr; decide
+          · split at hr
+            · cases hr
+            · split at hr <;> cases hr
+    have hl : (httpUrl ns p).length ≤ 0xfffe := by
+      have : (httpUrl ns p).length ≤ (render p).length + ns.length := by
+        unfold httpUrl render
+        simp only [List.length_append]
+        cases p.cred <;> simp <;> omega
+      omega
+    rw [compose_parts p h ns hl]
+    rfl
+  | tcp =>
+    simp only [partsOf]
+    exact tcp_cases p.host.text p.port _ _ (port_nonzero p h)
+  | file => rfl
+  | other => rfl
+
+end KsiVerif.Props.C20
+
+namespace KsiVerif.Props.C20
+open KsiVerif KsiVerif.Uri
+
+theorem http_scheme_short (s ns : Bytes) (hr : route s = .http ns) : ns.length ≤ 5 ∧ ns ≠ [] := by
+  unfold route at hr
+  simp only at hr
+  split at hr
+  · cases hr; exact ⟨by decide, by simp⟩
+  · split at hr
+    · cases hr; exact ⟨by decide, by simp⟩
+    · split at hr
+      · cases hr; exact ⟨by decide, by simp⟩
+      · split at hr
+        · cases hr
+        · split at hr <;> cases hr
+
+theorem httpUrl_length (p : UParts) (ns : Bytes) : (httpUrl ns p).length ≤ (render p).length + ns.length := by
+  unfold httpUrl render
+  simp only [List.length_append]
+  cases p.cred <;> simp <;> omega
+
+/-- … and the asynchronous service: the same hand-over for the HTTP and TCP schemes; `file` and
+every unknown scheme are refused -/
+theorem async_service_spec (p : UParts) (loginId key : Option Bytes) (h : wf p = true)
+    (hshape : ¬ (p.path = [] ∧ p.query = none ∧ p.fragment ≠ none)) (hlen : (render p).length ≤ 65000) :
+    setEndpointAsync (render p) loginId key = specAsync p loginId key := by
+  unfold setEndpointAsync specAsync
+  rw [uriSplit_render p h hshape (by omega)]
+  simp only
+  have hs : (partsOf p).scheme = some p.scheme := rfl
+  rw [hs, scheme_dispatch p.scheme]
+  cases hr : route p.scheme with
+  | http ns =>
+    simp only [orElse]
+    have hns := http_scheme_short _ _ hr
+    have hl : (httpUrl ns p).length ≤ 0xfffe := by have := httpUrl_length p ns; omega
+    have hne : (httpUrl ns p).isEmpty = false := by
+      unfold httpUrl render
+      cases hn : ns with
+      | nil => exact absurd hn hns.2
+      | cons a as => simp
+    simp only [compose_parts p h ns hl, hne, Bool.false_eq_true, if_false]
+    rfl
+  | tcp =>
+    simp only [partsOf]
+    exact tcp_cases p.host.text p.port _ _ (port_nonzero p h)
+  | file => rfl
+  | other => rfl
+
+/-- **Embedded credentials never reach the HTTP transport's URL**: whatever user name and key are
+written into a ksi-scheme URI, the URL handed over is the same — the one rendered without them -/
+theorem credentials_do_not_reach_the_url (p : UParts) (c c' : Option (Bytes × Bytes)) (l k l' k' : Option Bytes) (ns : Bytes)
+    (h : wf { p with cred := c } = true) (h' : wf { p with cred := c' } = true)
+    (hshape : ¬ (p.path = [] ∧ p.query = none ∧ p.fragment ≠ none))
+    (hlen : (render { p with cred := c }).length ≤ 65000) (hlen' : (render { p with cred := c' }).length ≤ 65000)
+    (hr : route p.scheme = .http ns) :
+    ∃ u k1 u' k1', setService (render { p with cred := c }) l k = .http (httpUrl ns { p with cred := none }) u k1 ∧
+      setService (render { p with cred := c' }) l' k' = .http (httpUrl ns { p with cred := none }) u' k1' := by
+  rw [blocking_service_spec _ l k h hshape hlen, blocking_service_spec _ l' k' h' hshape hlen']
+  unfold specBlocking
+  simp only [hr]
+  exact ⟨_, _, _, _, rfl, rfl⟩
+
+/-- the login id and the key are the embedded ones unless explicit ones are given -/
+theorem credential_precedence (a b : Option Bytes) :
+    orElse a b = (match a with | some x => some x | none => b) := rfl
+
+/-- non-vacuity: a concrete URI with everything in it is well formed, its parts are recovered, and
+the HTTP transport is handed `https://[2001:db8::1]:8080/p?q=1#f` with login `u`, key `k:1` -/
+example : wf ⟨[75, 83, 73, 43, 104, 116, 116, 112, 115], some ([117], [107, 58, 49]), .v6 [50, 48, 48, 49, 58, 100, 98, 56, 58, 58, 49], some 8080,
+    [47, 112], some [113, 61, 49], some [102]⟩ = true := by decide
+
 end KsiVerif.Props.C20
